@@ -383,7 +383,36 @@ func constInt(v ssa.Value) (int64, bool) {
 	return i, ok
 }
 
+// unspill resolves a load of a local cell (the result cell go/ssa introduces in functions with a
+// defer, or any other local) to the value stored to it earlier in the same block, when there is one.
+func unspill(v ssa.Value) ssa.Value {
+	for k := 0; k < 4; k++ {
+		u, ok := v.(*ssa.UnOp)
+		if !ok || u.Op != token.MUL {
+			return v
+		}
+		cell, ok := u.X.(*ssa.Alloc)
+		if !ok || u.Block() == nil {
+			return v
+		}
+		b := u.Block()
+		found := false
+		for i := indexIn(u) - 1; i >= 0; i-- {
+			if st, ok := b.Instrs[i].(*ssa.Store); ok && st.Addr == ssa.Value(cell) {
+				v = st.Val
+				found = true
+				break
+			}
+		}
+		if !found {
+			return v
+		}
+	}
+	return v
+}
+
 func constBool(v ssa.Value) (bool, bool) {
+	v = unspill(v)
 	c, ok := v.(*ssa.Const)
 	if !ok || c.Value == nil || c.Value.Kind() != constant.Bool {
 		return false, false
@@ -392,6 +421,7 @@ func constBool(v ssa.Value) (bool, bool) {
 }
 
 func isNilConst(v ssa.Value) bool {
+	v = unspill(v)
 	c, ok := v.(*ssa.Const)
 	return ok && c.Value == nil
 }
